@@ -44,7 +44,7 @@ Definition abs_step (m : list (skey * sparams)) (o : op) : list (skey * sparams)
   match o with
   | OSub f s sp => ((split f, s), sp) :: filter (fun x => negb (skey_eqb (fst x) (split f, s))) m
   | OUnsub f s => filter (fun x => negb (skey_eqb (fst x) (split f, s))) m
-  | ORetain _ _ _ => m
+  | ORetain _ _ _ _ => m
   end.
 Definition abs_subs (h : list op) : list (skey * sparams) := fold_left abs_step h [].
 
@@ -55,7 +55,7 @@ Definition spec_deliver (m : list (skey * sparams)) (t : list lvl) : list (N * s
 (* specification of the retained store: last non-empty retained publish per topic *)
 Definition abs_ret_step (m : list (list lvl * msg)) (o : op) : list (list lvl * msg) :=
   match o with
-  | ORetain t mg e =>
+  | ORetain t mg e _ =>
       let m' := filter (fun x => negb (path_eqb (fst x) (split t))) m in
       if e then m' else (split t, mg) :: m'
   | _ => m
